@@ -67,8 +67,7 @@ func newPair(serverKnowsID, clientKnowsID bool) (*pEnd, *pEnd) {
 }
 
 func (p *pEnd) afterEvent() {
-	zzvrt.RunSpawned("CloseConnection$1")
-	zzvrt.RunSpawned("handleState$1")
+	zzvrt.RunSpawnedExcept("setHandshakeTimer") // delayed-close closures; timer goroutines stay parked
 }
 
 func (p *pEnd) deliver() {
